@@ -14,7 +14,7 @@ RULE = ("real ssnet.runonce on both tunnel ends over fake sockets, every micro-s
         "branch) with short writes / short reads of the pipes, end of stream and end of the channel")
 TRUSTED_BASE = sc.STREAM_TB
 ASSUMPTIONS = sc.STREAM_ASSUMPTIONS
-PROFILES = ["bulk","bulk","close","latency","wrap","reuse","many","tunnel"]
+PROFILES = ["bulk","bulk","close","latency","wrap","reuse","many","tunnel","slow"]
 
 
 def tunnel_reader_check(ctx):
